@@ -64,6 +64,9 @@ def programs(draw, target):
                 r[0] = r[2] = 0.0
             elif z == 2:
                 r[0] = r[1] = r[2] = r[3] = 0.0
+    if draw(st.integers(0, 3)) == 0:  # fractional lots (dyadic, so that sums are exact in any order)
+        for r in prices:
+            r[4] = r[4] + draw(st.sampled_from((0, 0.25, 0.5, 0.75, 2.625)))
     rows = [[start + i * step if with_ts else None] + r for i, r in enumerate(prices)]
     ops, pos = [], 0
     reads = IND_READS if target == "indicator" else HX_READS
